@@ -122,8 +122,19 @@ func rfcComp(c crV) *dnode {
 	return n
 }
 
+// omitComp: RFC 4791 9.6 makes comp optional; a request for the whole object
+// (no name, all properties, all components) may be written without it.
+var omitComp bool
+
+func isWhole(c crV) bool {
+	return c.name == "" && c.allprops && c.allcomps && len(c.props) == 0 && len(c.comps) == 0
+}
+
 func rfcProp(c crV) *dnode {
 	cd := el(nsC, "calendar-data", nil, rfcComp(c))
+	if omitComp && isWhole(c) {
+		cd.kids = nil
+	}
 	if c.expand != nil {
 		cd.kids = append(cd.kids, el(nsC, "expand", [][2]string{{"start", rfcTime(c.expand[0])}, {"end", rfcTime(c.expand[1])}}))
 	}
